@@ -753,6 +753,9 @@ def part_gen(spec, mon):
         r = rng(spec["seed"], PROPERTY, idx)
         cfg = gen_cfg(r, avoid, spec.get("shape"))
         m, info = irgen.gen_module(r, cfg)
+        if "structure-same-target-cjump-asserts" in avoid:
+            if neutralise_same_target(m):
+                mon.count("neutralised", "same-target-cjump")
         why = static_avoid(m, avoid)
         if why:
             mon.discard("avoided: " + why)
@@ -968,6 +971,309 @@ def matrix_select(tyname, avoid):
     return ops, unops, cast_to, conds
 
 
+# --------------------------------------------------------------------------
+# directed control-flow skeletons
+#
+# A skeleton is a small statement tree; it is lowered to   i32 f(i32 x)   in memory form (i32
+# arithmetic only, so that no open translator finding is touched): ``acc`` records the path taken
+# (acc = acc * 3 + k at node k), conditions look at bits of x and acc, loops are counted.
+#   ("a",)                       path node
+#   ("if", j, then, else)        condition j
+#   ("while", n, body)  ("do", n, body)
+#   ("break", j, level)  ("continue", j, level)  ("return", j)        conditional exits
+#   ("same", j)                  conditional jump with identical targets
+#   ("twoentry", j, n, b1, b2)   cycle with two entry blocks (irreducible)
+#   ("self", n)                  single block loop
+
+
+CATALOGUE = {
+    "straight": [("a",), ("a",)],
+    "if-else": [("if", 0, [("a",)], [("a",)]), ("a",)],
+    "if-chain": [("if", 0, [("a",)], [("if", 1, [("a",)], [("if", 2, [("a",)], [("a",)])])]), ("a",)],
+    "nested-if": [("if", 0, [("if", 1, [("a",)], [("a",)]), ("a",)], [("a",)]), ("a",)],
+    "while": [("while", 3, [("a",)]), ("a",)],
+    "do-while": [("do", 3, [("a",)]), ("a",)],
+    "self-loop": [("self", 4), ("a",)],
+    "two-loops-in-sequence": [("while", 2, [("a",)]), ("a",), ("while", 3, [("a",)]), ("a",)],
+    "loop-with-if": [("while", 4, [("if", 0, [("a",)], [("a",)]), ("a",)]), ("a",)],
+    "loop-continue": [("while", 4, [("a",), ("continue", 4, 0), ("a",)]), ("a",)],
+    "loop-break": [("while", 4, [("a",), ("break", 4, 0), ("a",)]), ("a",)],
+    "loop-break-then-loop": [("while", 4, [("a",), ("break", 4, 0), ("a",)]), ("a",), ("while", 2, [("a",)]), ("a",)],
+    "do-while-break-then-loop": [("do", 3, [("a",), ("break", 5, 0), ("a",)]), ("while", 2, [("a",)]), ("a",)],
+    "loop-return": [("while", 4, [("a",), ("return", 4), ("a",)]), ("a",)],
+    "early-return-then-loop": [("if", 0, [("return", 5), ("a",)], [("a",)]), ("while", 3, [("a",)]), ("a",)],
+    "loop-in-both-arms": [("if", 0, [("while", 2, [("a",)])], [("while", 3, [("a",)])]), ("a",)],
+    "if-then-loop": [("if", 0, [("a",)], []), ("while", 3, [("a",)]), ("a",)],
+    "nested-loops": [("while", 3, [("a",), ("while", 2, [("a",)]), ("a",)]), ("a",)],
+    "nested-loops-3": [("while", 2, [("while", 2, [("while", 2, [("a",)])])]), ("a",)],
+    "nested-do-while": [("do", 2, [("do", 3, [("a",)])]), ("a",)],
+    "nested-break-inner": [("while", 3, [("while", 3, [("a",), ("break", 4, 0)]), ("a",)]), ("a",)],
+    "nested-break-outer": [("while", 3, [("while", 3, [("a",), ("break", 4, 1)]), ("a",)]), ("a",)],
+    "nested-continue-outer": [("while", 3, [("while", 3, [("a",), ("continue", 4, 1)]), ("a",)]), ("a",)],
+    "same-target-cjump": [("a",), ("same", 0), ("a",)],
+    "same-target-cjump-in-loop": [("while", 3, [("a",), ("same", 1)]), ("a",)],
+    "two-entry-loop": [("twoentry", 4, 3, [("a",)], [("a",)]), ("a",)],
+    "two-entry-loop-nested": [("while", 2, [("twoentry", 5, 2, [("a",)], [("a",)])]), ("a",)],
+}
+
+
+def random_skeleton(r, depth=0, in_loop=0, budget=None):
+    budget = budget if budget is not None else [r.randint(4, 12)]
+    out = []
+    for _ in range(r.randint(1, 3)):
+        if budget[0] <= 0:
+            break
+        budget[0] -= 1
+        k = r.random()
+        if k < 0.3 or depth >= 3:
+            out.append(("a",))
+        elif k < 0.5:
+            out.append(("if", r.randrange(8), random_skeleton(r, depth + 1, in_loop, budget),
+                        random_skeleton(r, depth + 1, in_loop, budget) if r.random() < 0.6 else []))
+        elif k < 0.68:
+            out.append((r.choice(["while", "while", "do"]), r.randint(1, 4),
+                        random_skeleton(r, depth + 1, in_loop + 1, budget)))
+        elif k < 0.78 and in_loop:
+            out.append(("break", r.randrange(8), r.randrange(in_loop) if r.random() < 0.3 else 0))
+        elif k < 0.86 and in_loop:
+            out.append(("continue", r.randrange(8), r.randrange(in_loop) if r.random() < 0.3 else 0))
+        elif k < 0.93:
+            out.append(("return", r.randrange(8)))
+        elif k < 0.95:
+            out.append(("same", r.randrange(4)))
+        elif k < 0.97:
+            out.append(("self", r.randint(1, 3)))
+        elif k < 0.985 and depth < 2:
+            out.append(("twoentry", r.randrange(8), r.randint(1, 3), [("a",)], random_skeleton(r, depth + 2, in_loop, budget)))
+        else:
+            out.append(("a",))
+    return out
+
+
+class Lower:
+    """skeleton -> ir function in memory form"""
+
+    def __init__(self, module, name, gvar):
+        from ppci import ir
+        self.ir = ir
+        self.f = ir.Function(name, ir.Binding.GLOBAL, ir.i32)
+        module.add_function(self.f)
+        self.x = ir.Parameter("x", ir.i32)
+        self.f.add_parameter(self.x)
+        self.n = 0
+        self.k = 0
+        self.g = gvar
+        self.cur = self.block("entry")
+        self.f.entry = self.cur
+        self.acc = self.slot("acc", 1)
+        self.loops = []     # (continue target, break target)
+
+    def name(self, base):
+        self.n += 1
+        return "%s%d" % (base, self.n)
+
+    def block(self, base):
+        b = self.ir.Block(self.name(self.f.name + "_" + base))
+        self.f.add_block(b)
+        return b
+
+    def emit(self, ins):
+        self.cur.add_instruction(ins)
+        return ins
+
+    def const(self, v):
+        return self.emit(self.ir.Const(v, self.name("c"), self.ir.i32))
+
+    def slot(self, base, init):
+        ir = self.ir
+        a = self.emit(ir.Alloc(self.name(base), 4, 4))
+        ad = self.emit(ir.AddressOf(a, self.name(base + "p")))
+        self.emit(ir.Store(self.const(init), ad))
+        return ad
+
+    def load(self, ad):
+        return self.emit(self.ir.Load(ad, self.name("v"), self.ir.i32))
+
+    def binop(self, a, op, b):
+        return self.emit(self.ir.Binop(a, op, b, self.name("t"), self.ir.i32))
+
+    def node(self):
+        self.k += 1
+        v = self.binop(self.binop(self.load(self.acc), "*", self.const(3)), "+", self.const(self.k))
+        self.emit(self.ir.Store(v, self.acc))
+
+    def cond(self, j):
+        """-> (a, b) for  cjmp a == b : j < 4: bit j of x flipped by bit 1 of acc; j >= 4: bit j-4 of x"""
+        if j >= 4:      # bit j-4 of x alone
+            return self.binop(self.binop(self.x, ">>", self.const(j - 4)), "&", self.const(1)), self.const(1)
+        t = self.binop(self.binop(self.x, ">>", self.const(j)), "^", self.binop(self.load(self.acc), ">>", self.const(1)))
+        return self.binop(t, "&", self.const(1)), self.const(1)
+
+    def ret(self):
+        v = self.load(self.acc)
+        self.emit(self.ir.Store(v, self.g))
+        self.emit(self.ir.Return(v))
+
+    def stmts(self, body):
+        """-> False when control cannot continue"""
+        ir = self.ir
+        for st in body:
+            kind = st[0]
+            if kind == "a":
+                self.node()
+            elif kind == "if":
+                a, b = self.cond(st[1])
+                tb, eb, jb = self.block("then"), self.block("else"), self.block("join")
+                self.emit(ir.CJump(a, "==", b, tb, eb if st[3] else jb))
+                if not st[3]:
+                    self.f.remove_block(eb)
+                self.cur = tb
+                self.node()
+                alive = self.stmts(st[2])
+                if alive:
+                    self.emit(ir.Jump(jb))
+                if st[3]:
+                    self.cur = eb
+                    if self.stmts(st[3]):
+                        self.emit(ir.Jump(jb))
+                self.cur = jb
+                # jb always has the fall-through predecessor unless both arms left
+                if not jb.references:
+                    self.f.remove_block(jb)
+                    return False
+            elif kind in ("while", "do"):
+                i = self.slot("i", 0)
+                head, body_b, latch, exit_b = self.block("head"), self.block("body"), self.block("latch"), self.block("exit")
+                self.emit(ir.Jump(head if kind == "while" else body_b))
+                self.cur = head
+                self.emit(ir.CJump(self.load(i), "<", self.const(st[1]), body_b, exit_b))
+                self.cur = body_b
+                self.loops.append((latch, exit_b))
+                alive = self.stmts(st[2])
+                self.loops.pop()
+                if alive:
+                    self.emit(ir.Jump(latch))
+                self.cur = latch
+                if latch.references:
+                    self.emit(ir.Store(self.binop(self.load(i), "+", self.const(1)), i))
+                    self.emit(ir.Jump(head))
+                else:
+                    self.f.remove_block(latch)
+                if not head.references:
+                    self.f.remove_block(head)
+                self.cur = exit_b
+                if not exit_b.references:
+                    self.f.remove_block(exit_b)
+                    return False
+            elif kind in ("break", "continue"):
+                if not self.loops:
+                    continue
+                level = min(st[2], len(self.loops) - 1)
+                tgt = self.loops[-1 - level][0 if kind == "continue" else 1]
+                a, b = self.cond(st[1])
+                nb = self.block("next")
+                self.emit(ir.CJump(a, "==", b, tgt, nb))
+                self.cur = nb
+            elif kind == "return":
+                a, b = self.cond(st[1])
+                rb, nb = self.block("ret"), self.block("next")
+                self.emit(ir.CJump(a, "==", b, rb, nb))
+                self.cur = rb
+                self.node()
+                self.ret()
+                self.cur = nb
+            elif kind == "same":
+                a, b = self.cond(st[1])
+                nb = self.block("next")
+                self.emit(ir.CJump(a, "==", b, nb, nb))
+                self.cur = nb
+            elif kind == "self":
+                i = self.slot("i", 0)
+                lb, nb = self.block("self"), self.block("next")
+                self.emit(ir.Jump(lb))
+                self.cur = lb
+                self.node()
+                v = self.binop(self.load(i), "+", self.const(1))
+                self.emit(ir.Store(v, i))
+                self.emit(ir.CJump(v, "<", self.const(st[1]), lb, nb))
+                self.cur = nb
+            elif kind == "twoentry":
+                i = self.slot("i", 0)
+                la, lb, nb = self.block("ea"), self.block("eb"), self.block("next")
+                a, b = self.cond(st[1])
+                self.emit(ir.CJump(a, "==", b, la, lb))
+                self.cur = la
+                self.node()
+                if self.stmts(st[3]):
+                    self.emit(ir.Jump(lb))
+                self.cur = lb
+                self.node()
+                if self.stmts(st[4]):
+                    v = self.binop(self.load(i), "+", self.const(1))
+                    self.emit(ir.Store(v, i))
+                    self.emit(ir.CJump(v, "<", self.const(st[2]), la, nb))
+                self.cur = nb
+                if not nb.references:
+                    self.f.remove_block(nb)
+                    return False
+        return True
+
+    def finish(self, body):
+        if self.stmts(body):
+            self.node()
+            self.ret()
+        from vlib.irgen import prune_unreachable
+        prune_unreachable(self.f)
+
+
+def build_skeleton(name, body):
+    from ppci import ir
+    m = ir.Module("skel")
+    g = ir.Variable("g", ir.Binding.GLOBAL, 4, 4)
+    m.add_variable(g)
+    Lower(m, "f", g).finish(body)
+    return m
+
+
+SKEL_ARGS = list(range(16))
+
+
+def neutralise_same_target(module):
+    """avoid switch of structure-same-target-cjump-asserts: cjmp c ? L : L  ->  jmp L"""
+    from ppci import ir
+    n = 0
+    for f in module.functions:
+        for b in f.blocks:
+            last = b.instructions[-1]
+            if isinstance(last, ir.CJump) and last.lab_yes is last.lab_no:
+                tgt = last.lab_yes
+                b.remove_instruction(last)
+                last.delete()
+                b.add_instruction(ir.Jump(tgt))
+                n += 1
+    return n
+
+
+def part_cfg(spec, mon):
+    avoid = spec["avoid"]
+    todo = [(name, body) for name, body in sorted(CATALOGUE.items())]
+    for idx in range(spec["start"], spec["start"] + spec["count"]):
+        r = rng(spec["seed"], PROPERTY, "cfg%d" % idx)
+        todo.append(("random/%d" % idx, random_skeleton(r)))
+    for name, body in todo:
+        m = build_skeleton(name, body)
+        why = static_avoid(m, avoid)
+        mon.count("skeletons", "avoided" if why else "used")
+        if why:
+            mon.discard("avoided: " + why)
+            continue
+        mon.count("skeleton_names", name.split("/")[0])
+        prepare_module(m, {"f": [[x] for x in SKEL_ARGS]}, mon, {"id": "cfg/" + name, "skeleton": repr(body)}, "cfg",
+                       replay=dict(spec))
+        flush(mon, force=False)
+    flush(mon)
+
+
 def run_shard(spec):
     mon = Mon(spec)
     part = spec["part"]
@@ -975,6 +1281,10 @@ def run_shard(spec):
         part_gen(spec, mon)
     elif part == "matrix":
         part_matrix(spec, mon)
+    elif part == "cfg":
+        part_cfg(spec, mon)
+    elif part == "c":
+        part_c(spec, mon)
     return mon.result()
 
 
